@@ -1,26 +1,53 @@
 """C03 - violation reports name exactly the offending imports and missing imports.
 
   C03.R1  worklist closure of the 'something else' searches: nothing outside the subject's subtree / the excluded objects is examined
-  C03.R2  single re-orientation into user subject/object order on every path from a query result to a bucket
-  C03.R3  nothing dropped: every bucket is rendered, every pair gets a line, de-duplication by full text, sorted
-  C03.R4  missing-import lines group by subject and list all objects
+  C03.R2  every pair that reaches a RuleViolations bucket is in user (subject, object) order, for import and for be-imported-by rules
+  C03.R3  nothing dropped: the module-rule detector forwards every pair of the query results, every bucket is rendered, every pair
+          gets a line, a line is the full text (subject, verb, object)
+  C03.R4  missing-import lines list, for one subject, all objects grouped under it - and only objects that were paired with it
   C03.R5  the query result stored for one key depends on that key only (no state shared between the searches of one batch)
+  C03.R6  everything a match() derives from the evaluable is recomputed in that call before it is used (no stale module lists)
+
+R2 - R6 are decided by abstract interpretation (rules/c03_absint.py) of public entry points on every concrete class
+
+    RuleViolationBaseDetector.<public method returning RuleViolations>(explicit, other)         R2, R3 (detector part)
+    RuleViolationMessageBaseGenerator.<public methods turning RuleViolations into text>(...)    R3, R4
+    EvaluableArchitecture.<queries returning a dict> on the implementing class                  R5
+    RuleMatcher.<public method taking an EvaluableArchitecture>, applied twice to one matcher   R6
+
+with abstract inputs built from the parameter annotations, once for import rules and once for be-imported-by rules.  Private helper
+names, the number of helpers, loops vs comprehensions, callbacks, early returns and local variable names play no role.  A construct the
+interpreter does not model yields `undecided` (exit 2), never a pass and never a VIOLATION; VIOLATIONs rest on positive evidence
+(a pair with exchanged roles, a data-dependent condition / slice / early exit on the way, subject and object content of different
+pairs combined, a field left over from the first application being read).
 """
 
 from __future__ import annotations
 
 import ast
 
-from core.flow import Flow, Spec
-from core.guards import atom, conds_formula, f_not, f_or, implies, to_formula
-from core.loader import AnalysisError, FuncInfo, Repo, calls_in, header, norm, own_nodes, parent
+from core.guards import atom, f_not, f_or, implies
+from core.loader import AnalysisError, ClassInfo, FuncInfo, Repo, norm, own_nodes
 from core.report import Result
+from core.types import NONE, members
 
 from . import search as S
-from .common import conds, dotted, guard_formula, is_attr_call, loops_around, reachable_funcs, stmt_of, types_of, where
-from .tables import DETECTOR, LAYER_DETECTOR, VIOLATIONS, Inliner, bucket_wiring
+from .c03_absint import Const, E, Interp, Opaque, Ref, Sc, Top, Tup, V
+from .common import guard_formula, stmt_of, types_of, where
+# anchors: modules and classes that other modules of pytestarch import by these names (nothing private)
+DETECTOR = "pytestarch.rule_assessment.rule_check.rule_violation_detector"  # RuleViolationBaseDetector
+MATCHER = "pytestarch.rule_assessment.rule_check.rule_matcher"  # RuleMatcher
+MODREQ = "pytestarch.rule_assessment.rule_check.module_requirement"  # ModuleRequirement
+VIOLATIONS = "pytestarch.rule_assessment.rule_check.rule_violations"  # RuleViolations
+SEARCHES = "pytestarch.eval_structure.breadth_first_searches"  # the public graph searches
+MSG = "pytestarch.rule_assessment.error_message.message_generator"  # RuleViolationMessageBaseGenerator
+EVAL_ARCH = "pytestarch.eval_structure.evaluable_architecture"  # EvaluableArchitecture (protocol), type aliases of the query results
+BOOL = ("b", "bool", ())
+ROLE_S = frozenset({"S"})
+ROLE_O = frozenset({"O"})
 
-MSG = "pytestarch.rule_assessment.error_message.message_generator"
+
+# --------------------------------------------------------------------------- R1
 
 
 def run_r1(repo: Repo, res: Result, rule_id: str = "C03.R1") -> None:
@@ -33,11 +60,12 @@ def run_r1(repo: Repo, res: Result, rule_id: str = "C03.R1") -> None:
         own = [v for v, p in m.submodule_sets.items() if p == subj]
         exc = list(m.accumulated_sets)
         if not own or not exc:
-            raise AnalysisError(f"{fi.fq}: own-subtree / excluded sets not recognised")
+            res.undecide(rule_id, f"{fi.relpath}::{getattr(fi, 'shown', fi.qualname)}::subject subtree / excluded set", f"the set holding the subject's subtree ({own or 'not found'}) or the set of excluded objects ({exc or 'not found'}) was not recognised", where(fi, fi.node))
+            continue
         pushes = [e for e in m.events if e.kind == "push"]
         for e in pushes:
             n += 1
-            goal = f_or([atom(f"{e.what} in {own[0]}"), atom(f"{e.what} in {exc[0]}")])
+            goal = f_or([atom(f"{e.what} in {o}") for o in own] + [atom(f"{e.what} in {x}") for x in exc])
             ok = implies(e.guard, goal)
             res.add(
                 rule_id,
@@ -48,221 +76,609 @@ def run_r1(repo: Repo, res: Result, rule_id: str = "C03.R1") -> None:
                 kind="dominance",
             )
         # worklist is initialised from the subject's subtree only
-        inits = [s_ for s_ in own_nodes(fi.node) if isinstance(s_, ast.Assign) and dotted(s_.targets[0]) == m.worklist]
-        for s_ in inits:
+        sources = getattr(m, "worklist_sources", None)
+        if sources is not None:
             n += 1
-            src = s_.value.args[0] if isinstance(s_.value, ast.Call) and s_.value.args else s_.value
-            ok = dotted(src) in own
-            res.add(rule_id, repo.key(fi, s_) + " [worklist start]", ok, f"worklist starts from {S.SUBMODULES}(graph, {subj})" if ok else f"worklist starts from `{norm(s_.value)}`, not from the subject's subtree", where(fi, s_), kind="structural")
+            ok = bool(sources) and all(s in own for s in sources)
+            res.add(rule_id, f"{fi.relpath}::{getattr(fi, 'shown', fi.qualname)}::worklist start", ok, f"worklist starts from {S.SUBMODULES}(graph, {subj})" if ok else f"worklist starts from `{', '.join(sources) or '?'}`, not only from the subject's subtree", where(fi, m.loop), kind="structural")
+        else:
+            inits = [s_ for s_ in own_nodes(fi.node) if isinstance(s_, ast.Assign) and isinstance(s_.targets[0], ast.Name) and s_.targets[0].id == m.worklist]
+            for s_ in inits:
+                n += 1
+                src = s_.value.args[0] if isinstance(s_.value, ast.Call) and s_.value.args else s_.value
+                ok = isinstance(src, ast.Name) and src.id in own
+                res.add(rule_id, repo.key(fi, s_) + " [worklist start]", ok, f"worklist starts from {S.SUBMODULES}(graph, {subj})" if ok else f"worklist starts from `{norm(s_.value)}`, not from the subject's subtree", where(fi, s_), kind="structural")
         # popped nodes that belong to the excluded set are skipped before expansion
         if pushes:
             n += 1
-            ok = implies(guard_formula(fi, m.neighbour_call), f_not(atom(f"{m.popped} in {exc[0]}")))
-            res.add(rule_id, f"{fi.relpath}::{fi.qualname}::excluded nodes are not expanded", ok, "popped nodes in the excluded set are skipped" if ok else f"a popped node in `{exc[0]}` is expanded: imports of the rule's objects are reported as the subject's", where(fi, m.neighbour_call), kind="dominance")
+            g = guard_formula(fi, m.neighbour_call)
+            ok = all(implies(g, f_not(atom(f"{m.popped} in {x}"))) for x in exc)
+            res.add(rule_id, f"{fi.relpath}::{getattr(fi, 'shown', fi.qualname)}::excluded nodes are not expanded", ok, "popped nodes in the excluded set are skipped" if ok else f"a popped node in `{exc[0]}` is expanded: imports of the rule's objects are reported as the subject's", where(fi, m.neighbour_call), kind="dominance")
         else:
             n += 1
-            res.add(rule_id, f"{fi.relpath}::{fi.qualname}::no push", True, "the search never extends its worklist beyond the subject's subtree", where(fi, fi.node), nontrivial=False)
+            res.add(rule_id, f"{fi.relpath}::{getattr(fi, 'shown', fi.qualname)}::no push", True, "the search never extends its worklist beyond the subject's subtree", where(fi, fi.node), nontrivial=False)
     res.floor(rule_id, 4, n)
 
 
-def run_r2(repo: Repo, res: Result, inl: Inliner) -> None:
-    T = inl.T
+# --------------------------------------------------------------------------- shared: classes and entry points
+
+
+def _concrete_classes(repo: Repo, base: ClassInfo) -> list[ClassInfo]:
+    out = []
+    for c in [base, *repo.subclasses(base)]:
+        names = {n for k in repo.mro(c) for n, m in k.methods.items() if m.is_abstract}
+        if all(not repo.lookup_method(c, n).is_abstract for n in names):
+            out.append(c)
+    return out
+
+
+def _ann(T, fi: FuncInfo, p: ast.arg):
+    return T.ann(fi.module, p.annotation)
+
+
+def _mentions_class(t, fq: str) -> bool:
+    return any(m == ("cls", fq) for m in members(t))
+
+
+def _public(repo: Repo, m: FuncInfo) -> bool:
+    return not m.name.startswith("_")
+
+
+def _returns_text(T, m: FuncInfo) -> bool:
+    """Return annotation is str / a collection of str (or absent)."""
+    if m.node.returns is None:
+        return True
+
+    def texty(t) -> bool:
+        for x in members(t):
+            if x == ("b", "str", ()):
+                return True
+            if x[0] == "b" and x[1] in ("list", "set", "seq", "iter", "frozenset", "tuple") and x[2] and any(texty(a) for a in x[2]):
+                return True
+        return False
+
+    return texty(T.ann(m.module, m.node.returns))
+
+
+# --------------------------------------------------------------------------- R2
+
+
+def _value_of_type(it: Interp, t, roles: dict, key, pos: str = "key", src: str = ""):
+    """Abstract value of a query result, built from its annotation: dict[tuple[Module, Module], list[tuple[Module, Module]]] etc."""
+    out = set()
+    for m in members(t):
+        if m == NONE:
+            out.add(Const(None))
+        elif m[0] == "b" and m[1] == "dict" and len(m[2]) == 2:
+            r = it.dict_((key, "dict"), "query result")
+            it.store_entry(r, _value_of_type(it, m[2][0], roles, (key, "k"), "key", src), _value_of_type(it, m[2][1], roles, (key, "v"), "val", src))
+            out.add(r)
+        elif m[0] == "b" and m[1] in ("list", "set", "seq", "iter", "frozenset") and m[2]:
+            out.add(it.coll((key, "coll"), "query result", _value_of_type(it, m[2][0], roles, (key, "e"), "elem", src)))
+        elif m[0] == "b" and m[1] == "tuple" and len(m[2]) == 2:
+            out.add(Tup((_value_of_type(it, m[2][0], roles, (key, 0), "importer", src), _value_of_type(it, m[2][1], roles, (key, 1), "importee", src)), "query result (importer, importee)"))
+        elif m[0] == "cls" and pos in roles:
+            out.add(Sc(roles=frozenset({roles[pos]}), srcs=frozenset({src} if src else ())))
+        else:
+            out.add(Opaque(f"{pos}"))
+    return frozenset(out)
+
+
+def _pair_verdict(it: Interp, elem) -> str:
+    """good | swapped | unknown for one abstract element of a bucket."""
+    if not isinstance(elem, Tup) or len(elem.items) != 2:
+        return "unknown"
+    a = {s.roles for s in it.scalars(elem.items[0])}
+    b = {s.roles for s in it.scalars(elem.items[1])}
+    if a == {ROLE_S} and b == {ROLE_O}:
+        return "good"
+    if a == {ROLE_O} and b == {ROLE_S}:
+        return "swapped"
+    return "unknown"
+
+
+def run_r2(repo: Repo, res: Result) -> None:
+    T = types_of(repo)
     base = repo.cls(DETECTOR, "RuleViolationBaseDetector")
-    reorder = None
-    for m in base.methods.values():
-        rets = [s for s in own_nodes(m.node) if isinstance(s, ast.Return) and s.value is not None]
-        if len(rets) == 2 and any(isinstance(r.value, ast.Tuple) and len(r.value.elts) == 2 and all(isinstance(x, ast.Subscript) for x in r.value.elts) for r in rets):
-            reorder = m
-    if reorder is None:
-        raise AnalysisError("the function re-ordering a pair into user subject/object order was not found")
-    p = reorder.param_names[1]
-    ident = [s for s in own_nodes(reorder.node) if isinstance(s, ast.Return) and dotted(s.value) == p]
-    swap = [s for s in own_nodes(reorder.node) if isinstance(s, ast.Return) and isinstance(s.value, ast.Tuple)]
-    ok = len(ident) == 1 and len(swap) == 1
-    if ok:
-        idx = [x.slice.value if isinstance(x.slice, ast.Constant) else None for x in swap[0].value.elts]
-        ok = idx == [1, 0] and all(dotted(x.value) == p for x in swap[0].value.elts)
-
-        def subst(x: ast.expr):
-            if isinstance(x, ast.Attribute) and x.attr == "rule_specified_with_importer_as_rule_subject":
-                return atom("importer_is_subject")
-            if isinstance(x, ast.Attribute) and x.attr == "rule_specified_with_importer_as_rule_object":
-                return f_not(atom("importer_is_subject"))
-            return None
-
-        fi_ = conds_formula(conds(reorder, ident[0]), subst)
-        fs_ = conds_formula(conds(reorder, swap[0]), subst)
-        ok = ok and implies(fi_, atom("importer_is_subject")) and implies(fs_, f_not(atom("importer_is_subject"))) and "importer_is_subject" in str(fi_)
-    res.add("C03.R2", f"{reorder.relpath}::{reorder.qualname}::swap iff be-imported-by", ok, "pair is exchanged exactly for be-imported-by rules" if ok else "the re-orientation does not exchange the pair exactly for be-imported-by rules", where(reorder, reorder.node), kind="decision-table")
-
-    # every bucket method returns pairs that went through the re-orientation exactly once
-    def transfer(f: FuncInfo, call: ast.Call, names, args, recv, kwargs):
-        if reorder.fq in names and len(names) == 1:
-            t = set(args[0]) if args else set()
-            out = set()
-            if "RAW" in t:
-                out.add("ORDERED")
-            if "ORDERED" in t or "TWICE" in t:
-                out.add("TWICE")
-            return out
-        return None
-
-    grv, buckets = bucket_wiring(repo, inl)
+    viol = repo.cls(VIOLATIONS, "RuleViolations")
+    modreq = repo.cls(MODREQ, "ModuleRequirement")
+    fields = list(viol.ann_attrs)
+    classes = _concrete_classes(repo, base)
+    if not classes:
+        raise AnalysisError("no concrete subclass of RuleViolationBaseDetector found")
     n = 0
-    for cls_mod, cls_name in ((DETECTOR, "RuleViolationDetector"), (LAYER_DETECTOR, "LayerRuleViolationDetector")):
-        cls = repo.cls(cls_mod, cls_name)
-        seeds = {}
-        methods = []
-        for b in buckets:
-            m = repo.lookup_method(cls, b.method)
-            if m is None or m.is_abstract:
-                raise AnalysisError(f"{cls.fq}.{b.method}: no concrete implementation")
-            methods.append((b, m))
-            seeds[(m.fq, m.param_names[2])] = {"RAW"}
-        flow = Flow(repo, T, Spec(transfer=transfer, param_seeds=seeds, objects_carry=False, scope=lambda f: f.module.name in (DETECTOR, LAYER_DETECTOR)))
-        for b, m in methods:
-            n += 1
-            tags = set(flow.ret_tags.get(m.fq, ()))
-            ok = tags == {"ORDERED"}
-            why = "returned pairs pass the re-orientation exactly once"
-            if not ok:
-                why = (
-                    f"{cls_name}.{b.method} ({b.field}) returns pairs that " + ("never pass" if "RAW" in tags and "ORDERED" not in tags else "do not all pass" if "RAW" in tags else "pass twice through" if "TWICE" in tags else "do not derive from the query result and")
-                    + " the re-orientation into user subject/object order: the message names subject and object the wrong way round for be-imported-by rules"
-                )
-            res.add("C03.R2", f"{m.relpath}::{m.qualname}::orientation of {b.field}", ok, why, where(m, m.node), kind="flow")
+    for cls in classes:
+        entries = [m for k in repo.mro(cls) for m in k.methods.values() if _public(repo, m) and not m.is_abstract and m.node.returns is not None and _mentions_class(T.ann(m.module, m.node.returns), viol.fq)]
+        entries = [m for m in entries if repo.lookup_method(cls, m.name) is m]
+        if not entries:
+            # no return annotation: the public method that constructs the RuleViolations object
+            for k in repo.mro(cls):
+                for m in k.methods.values():
+                    if _public(repo, m) and not m.is_abstract and repo.lookup_method(cls, m.name) is m and any(isinstance(c, ast.Call) and (ci := T.ctor_class(m, c)) is not None and ci.fq == viol.fq for c in own_nodes(m.node)):
+                        entries.append(m)
+        if not entries:
+            raise AnalysisError(f"{cls.fq}: no public method returning RuleViolations found")
+        for entry in entries:
+            verdicts: dict[str, dict[str, list]] = {f: {"good": [], "swapped": [], "unknown": []} for f in fields}
+            dropped: dict[str, set] = {f: set() for f in fields}
+            init = repo.lookup_method(cls, "__init__")
+            filters_by_design = init is not None and any(any(m[0] == "cls" and m[1].rsplit(".", 1)[-1] == "LayerMapping" for m in members(_ann(T, init, p))) for p in init.params[1:])
+            for world in (True, False):
+                it = Interp(repo)
+                kind = "import" if world else "be-imported-by"
+
+                def make_modreq(it=it, world=world):
+                    counter = {"n": 0}
+
+                    def mr_arg(p: ast.arg, init: FuncInfo):
+                        if _ann(T, init, p) == BOOL:
+                            return V(Const(world))
+                        counter["n"] += 1
+                        # ModuleRequirement(rule subjects, rule objects, importer is rule subject)
+                        role = ROLE_S if counter["n"] == 1 else ROLE_O
+                        return V(it.coll(("input", "modreq", p.arg), "rule configuration", V(Sc(roles=role))))
+
+                    return it.instantiate(modreq, mr_arg, f"modreq-{world}")
+
+                def det_arg(p: ast.arg, init: FuncInfo, world=world, make_modreq=make_modreq):
+                    t = _ann(T, init, p)
+                    if _mentions_class(t, modreq.fq):
+                        return make_modreq()
+                    if t == BOOL:
+                        return V(Const(world))
+                    return V(Opaque(p.arg))
+
+                det = it.instantiate(cls, det_arg, f"det-{world}")
+                roles = {"importer": "S" if world else "O", "importee": "O" if world else "S", "key": "S"}
+                args = []
+                arch = repo.module(EVAL_ARCH)
+                for i, p in enumerate(entry.params[1:]):
+                    t = _ann(T, entry, p)
+                    v = _value_of_type(it, t, roles, ("input", p.arg), src=p.arg)
+                    if not any(isinstance(sh, Ref) and sh.kind == "dict" for sh in v):
+                        # not annotated: (explicitly requested, not explicitly requested) by position, shapes from the public type aliases
+                        alias = ("ExplicitlyRequestedDependenciesByBaseModules", "NotExplicitlyRequestedDependenciesByBaseModule")[i] if i < 2 else None
+                        if alias is not None and alias in arch.constants:
+                            v = _value_of_type(it, T.ann(arch, arch.constants[alias]), roles, ("input", p.arg), src=p.arg) | V(Const(None))
+                    if not any(isinstance(sh, Ref) and sh.kind == "dict" for sh in v):
+                        raise AnalysisError(f"{entry.fq}: parameter `{p.arg}` is not annotated with a query result type (dict of dependencies)")
+                    args.append(v)
+                try:
+                    rv = it.call_method(det, entry.name, args, f"run-{world}")
+                except (RuntimeError, RecursionError, KeyError, AttributeError, TypeError, IndexError, ValueError) as e:
+                    raise AnalysisError(f"{entry.fq}: abstract interpretation failed ({type(e).__name__}: {e})") from e
+                objs = [sh for sh in rv if isinstance(sh, Ref) and sh.kind == "obj" and it.cell(sh).ci is not None and it.cell(sh).ci.fq == viol.fq]
+                if not objs:
+                    n += len(fields)
+                    res.undecide("C03.R2", f"{entry.relpath}::{cls.name}.{entry.name}::result", f"the abstract evaluation did not produce a RuleViolations object ({'; '.join(it.tops[:2]) or 'no value'})", where(entry, entry.node))
+                    continue
+                for o in objs:
+                    cell = it.cell(o)
+                    for f in fields:
+                        fv = cell.fields.get(f, E)
+                        for sh in fv:
+                            if isinstance(sh, Ref) and sh.kind == "coll":
+                                for el in it.elems(V(sh)):
+                                    verdicts[f][_pair_verdict(it, el)].append((kind, getattr(el, "site", "") or (el.why if isinstance(el, Top) else "")))
+                                    for sc in it.scalars(V(el)):
+                                        dropped[f] |= {(mk[1], mk[2]) for mk in sc.marks if mk[0] == "part"}
+                            elif isinstance(sh, Top):
+                                verdicts[f]["unknown"].append((kind, sh.why))
+                            elif not (isinstance(sh, Const) and sh.value is None):
+                                verdicts[f]["unknown"].append((kind, f"bucket value is not a collection: {type(sh).__name__}"))
+            for f in fields:
+                v = verdicts[f]
+                construct = f"{cls.module.relpath}::{cls.name}.{entry.name}::orientation of {f}"
+                if v["swapped"]:
+                    kinds = sorted({k for k, _ in v["swapped"]})
+                    sites = sorted({s for _, s in v["swapped"] if s})
+                    n += 1
+                    res.add(
+                        "C03.R2",
+                        construct,
+                        False,
+                        f"for {' and '.join(kinds)} rules the bucket {f} receives pairs in (rule object, rule subject) order (pair built at {', '.join(sites[:3]) or '?'}): the message names subject and object the wrong way round",
+                        sites[0] if sites else where(entry, entry.node),
+                        kind="flow",
+                    )
+                elif v["unknown"]:
+                    n += 1
+                    res.undecide("C03.R2", construct, f"the orientation of some pairs could not be determined ({'; '.join(sorted({s for _, s in v['unknown'] if s})[:2]) or 'no provenance'})", where(entry, entry.node))
+                elif v["good"]:
+                    n += 1
+                    res.add("C03.R2", construct, True, "every pair reaching the bucket is (rule subject, rule object) for import and for be-imported-by rules", where(entry, entry.node), kind="flow")
+                else:
+                    res.add("C03.R2", construct, True, "the bucket receives no pairs from the query results", where(entry, entry.node), nontrivial=False)
+                if not filters_by_design and (v["good"] or v["swapped"]):
+                    # module rules: every realised pair / every key without realisation is forwarded (layer detectors drop same-layer pairs by design: C05)
+                    ok = not dropped[f]
+                    res.add(
+                        "C03.R3",
+                        f"{cls.module.relpath}::{cls.name}.{entry.name}::{f} keeps every pair",
+                        ok,
+                        "no pair of the query result is dropped on the way into the bucket (only emptiness of a key's list decides)" if ok else "pairs of the query result are dropped on the way into the bucket: " + "; ".join(f"{why} [{w}]" for w, why in sorted(dropped[f])[:2]) + ": imports of the violating set are not listed",
+                        sorted(dropped[f])[0][0] if dropped[f] else where(entry, entry.node),
+                        kind="flow",
+                    )
     res.floor("C03.R2", 16, n)
+
+
+# --------------------------------------------------------------------------- R3 / R4
 
 
 def run_r3_r4(repo: Repo, res: Result) -> None:
     T = types_of(repo)
+    base = repo.cls(MSG, "RuleViolationMessageBaseGenerator")
     viol = repo.cls(VIOLATIONS, "RuleViolations")
     fields = list(viol.ann_attrs)
-    base = repo.cls(MSG, "RuleViolationMessageBaseGenerator")
-    entry = base.methods.get("create_rule_violation_messages")
-    collect = base.methods.get("_create_violation_messages")
-    if entry is None or collect is None:
-        raise AnalysisError("message generator entry points not found")
-    abstract = sorted(n for n, m in base.methods.items() if m.is_abstract)
-    called = {c.func.attr for c in calls_in(collect.node) if isinstance(c.func, ast.Attribute) and dotted(c.func.value) == "self"}
-    for a in abstract:
-        # the creator's result must reach the returned list (argument of an extend / _extend call)
-        used = False
-        for c in calls_in(collect.node):
-            if isinstance(c.func, ast.Attribute) and c.func.attr == a:
-                p = parent(c)
-                used = isinstance(p, ast.Call) or isinstance(p, (ast.Assign, ast.AugAssign, ast.Return))
-                if isinstance(p, ast.Expr):
-                    used = False
-        res.add("C03.R3", f"{collect.relpath}::{collect.qualname}::creator {a}", used, f"messages of {a} are collected" if used else f"the messages of {a} are never added to the report: a whole class of violations is silently missing from the message", where(collect, collect.node), kind="structural")
-    for gen_name in ("RuleViolationMessageGenerator", "LayerRuleViolationMessageGenerator"):
-        gen = repo.cls(MSG, gen_name)
-        roots = [repo.lookup_method(gen, a) for a in abstract]
-        reach = reachable_funcs(repo, [r for r in roots if r is not None], byname=False)
-        read = set()
-        for f in reach:
-            for n in own_nodes(f.node):
-                if isinstance(n, ast.Attribute) and n.attr in fields and isinstance(n.ctx, ast.Load):
-                    read.add(n.attr)
-        for fld in fields:
-            res.add("C03.R3", f"{gen.module.relpath}::{gen_name}::field {fld} rendered", fld in read, f"{fld} is read by a message creator" if fld in read else f"bucket {fld} is never turned into message lines by {gen_name}", kind="structural")
-    # entry: de-duplication by the full text, sorted
-    sets_ = [s for s in own_nodes(entry.node) if isinstance(s, ast.Call) and is_attr_call(s, "add")]
-    ok = False
-    detail = "message text does not contain subject, verb and object"
-    for c in sets_:
-        if c.args and isinstance(c.args[0], ast.JoinedStr):
-            attrs = {n.attr for n in ast.walk(c.args[0]) if isinstance(n, ast.Attribute)}
-            if {"rule_subject", "rule_verb", "rule_object"} <= attrs:
-                ok = True
-                detail = "lines are de-duplicated by their full text (subject, verb, object)"
-        lp = [l for l in loops_around(c, entry.node) if isinstance(l, ast.For)]
-        if lp and any(isinstance(x, (ast.Break, ast.Continue)) for x in ast.walk(lp[0])) or (lp and conds(entry, c)):
-            ok = False
-            detail = "some messages are skipped before being added to the report"
-    res.add("C03.R3", f"{entry.relpath}::{entry.qualname}::full-text lines", ok, detail, where(entry, entry.node), kind="structural")
-    rets = [s for s in own_nodes(entry.node) if isinstance(s, ast.Return)]
-    ok = len(rets) == 1 and isinstance(rets[0].value, ast.Call) and dotted(rets[0].value.func) == "sorted" and not any(isinstance(n, ast.Subscript) for n in ast.walk(rets[0].value))
-    res.add("C03.R3", f"{entry.relpath}::{entry.qualname}::sorted, complete", ok, "all lines are returned, sorted" if ok else f"the report is `{norm(rets[0].value) if rets else '?'}`: not the complete sorted list of lines", where(entry, entry.node), kind="structural")
-    # present-mode creator: one message per pair
-    gen = repo.cls(MSG, "RuleViolationMessageGenerator")
-    n = 0
-    for m in gen.methods.values():
-        params = m.param_names[1:]
-        if len(params) != 1:
-            continue
-        ann = norm(m.params[1].annotation) if m.params[1].annotation is not None else ""
-        if "Dependency" not in ann or not any(k in ann for k in ("Iterable", "list[", "set[", "Sequence", "Collection")):
-            continue
-        loops = [l for l in own_nodes(m.node) if isinstance(l, ast.For) and dotted(l.iter) == params[0]]
-        for l in loops:
-            n += 1
-            bad = [x for x in ast.walk(l) if isinstance(x, (ast.Break, ast.Continue, ast.Return))]
-            appends = [c for c in ast.walk(l) if is_attr_call(c, "append") or is_attr_call(c, "add")]
-            guarded = [c for c in appends if len(conds(m, c)) > len(conds(m, l))]
-            ok = bool(appends) and not bad and not guarded
-            res.add("C03.R3", repo.key(m, l) + " [one line per pair]", ok, "every pair of the bucket yields a message" if ok else f"not every pair of `{params[0]}` yields a message ({'loop left early' if bad else 'append is conditional' if guarded else 'nothing appended'}): offending imports are missing from the report", where(m, l), kind="structural")
-        sliced = [x for x in own_nodes(m.node) if isinstance(x, ast.Subscript) and dotted(x.value) == params[0]]
-        if sliced:
-            n += 1
-            res.add("C03.R3", repo.key(m, stmt_of(sliced[0])) + " [whole bucket]", False, f"only `{norm(sliced[0])}` of the bucket is rendered", where(m, sliced[0]), kind="structural")
-    res.floor("C03.R3.pairs", 1, n)
-    # R4: absent-mode creators list all objects grouped under the subject
-    k = 0
-    for gen_name in ("RuleViolationMessageGenerator", "LayerRuleViolationMessageGenerator"):
-        gen = repo.cls(MSG, gen_name)
-        for m in gen.methods.values():
-            grp = [c for c in calls_in(m.node) if isinstance(c.func, ast.Attribute) and c.func.attr.startswith("_get_violating_rule_subject")]
-            if not grp or m.name.startswith("_get_violating"):
+    classes = _concrete_classes(repo, base)
+    if not classes:
+        raise AnalysisError("no concrete subclass of RuleViolationMessageBaseGenerator found")
+    n3 = n4 = 0
+    for cls in classes:
+        entries = []
+        for k in repo.mro(cls):
+            for m in k.methods.values():
+                if _public(repo, m) and not m.is_abstract and repo.lookup_method(cls, m.name) is m and any(_mentions_class(_ann(T, m, p), viol.fq) for p in m.params[1:]) and _returns_text(T, m):
+                    entries.append(m)
+        if not entries:
+            raise AnalysisError(f"{cls.fq}: no public method turning RuleViolations into text found")
+        for entry in entries:
+            rendered: dict[str, bool] = {f: True for f in fields}
+            missing_in: dict[str, set] = {f: set() for f in fields}
+            parts3: dict[tuple, set] = {}
+            parts4: dict[tuple, set] = {}
+            mixes: dict[tuple, set] = {}
+            incomplete_text: dict[str, set] = {}
+            tops: set = set()
+            lost: set = set()
+            lines_seen = 0
+            for world in (True, False):
+                it = Interp(repo)
+                kind = "import" if world else "be-imported-by"
+
+                def gen_arg(p: ast.arg, init: FuncInfo, world=world):
+                    return V(Const(world)) if _ann(T, init, p) == BOOL else V(Opaque(p.arg))
+
+                gen = it.instantiate(cls, gen_arg, f"gen-{world}")
+                rv = it.obj(("input", "violations"), viol, "input")
+                for f in fields:
+                    c = it.coll(("input", f), "input", V(Tup((V(Sc(roles=ROLE_S, srcs=frozenset({f}))), V(Sc(roles=ROLE_O, srcs=frozenset({f})))), "input")))
+                    it.cell(c).order = ("unsorted",)  # the buckets are sets
+                    it.set_field(rv, f, V(c), True)
+                args = [V(rv) if _mentions_class(_ann(T, entry, p), viol.fq) else V(Opaque(p.arg)) for p in entry.params[1:]]
+                try:
+                    out = it.call_method(gen, entry.name, args, f"run-{world}")
+                except (RuntimeError, RecursionError, KeyError, AttributeError, TypeError, IndexError, ValueError) as e:
+                    raise AnalysisError(f"{entry.fq}: abstract interpretation failed ({type(e).__name__}: {e})") from e
+                w = it.has_top(out)
+                if w:
+                    tops.add(w)
+                lost |= set(it.tops)
+                lines = it.scalars(out)
+                lines_seen += len(lines)
+                got = set()
+                for s in lines:
+                    got |= {x for x in s.srcs if x in fields}
+                for f in fields:
+                    if f not in got:
+                        rendered[f] = False
+                        missing_in[f].add(kind)
+                for s in lines:
+                    which = sorted(x for x in s.srcs if x in fields)
+                    for mk in s.marks:
+                        if mk[0] == "part":
+                            (parts4 if mk[3] else parts3).setdefault((mk[1], mk[2]), set()).update(which)
+                        elif mk[0] == "mix":
+                            mixes.setdefault((mk[1], mk[2]), set()).update(which)
+                    # full text: subject and object content, and every field of the message record the line was formatted from
+                    if which:
+                        lacks = []
+                        if "S" not in s.roles:
+                            lacks.append("the rule subject")
+                        if "O" not in s.roles:
+                            lacks.append("the rule object")
+                        recs = {x.split(":", 1)[1].rsplit(".", 1)[0] for x in s.srcs if str(x).startswith("fld:")}
+                        for rc in sorted(recs):
+                            ci = next((c for c in repo.classes.values() if c.name == rc and c.fq != viol.fq), None)
+                            if ci is None:
+                                continue
+                            for a in ci.ann_attrs:
+                                if f"fld:{rc}.{a}" not in s.srcs:
+                                    lacks.append(f"{rc}.{a}")
+                        if lacks:
+                            incomplete_text.setdefault(", ".join(lacks), set()).update(which)
+            head = f"{cls.module.relpath}::{cls.name}.{entry.name}"
+            absent = [f for f in fields if not rendered[f]] or incomplete_text
+            if tops or not lines_seen or (absent and lost):
+                # something is missing from the abstract report, but the interpreter met constructs it does not model: no verdict
+                res.undecide("C03.R3", f"{head}::report", f"the abstract evaluation of the message generator lost track ({'; '.join(sorted(tops | lost)[:2]) or 'no lines produced'})", where(entry, entry.node))
+                n3 += len(fields) + 2
+                n4 += 2
                 continue
-            st = stmt_of(grp[0])
-            if not (isinstance(st, ast.Assign) and isinstance(st.targets[0], ast.Tuple) and len(st.targets[0].elts) == 2):
-                raise AnalysisError(f"{m.fq}: grouping result not unpacked into (objects by subject, subjects)")
-            by_subj, subjects = (dotted(x) for x in st.targets[0].elts)
-            outer = [l for l in own_nodes(m.node) if isinstance(l, ast.For) and dotted(l.iter) == subjects]
-            if len(outer) != 1:
-                raise AnalysisError(f"{m.fq}: loop over the violating subjects not found")
-            sv = dotted(outer[0].target)
-            inner = [l for l in ast.walk(outer[0]) if isinstance(l, ast.For) and by_subj in norm(l.iter) and sv in norm(l.iter)]
-            k += 1
-            ok = len(inner) == 1 and not any(isinstance(x, (ast.Break, ast.Continue)) for x in ast.walk(outer[0])) and not any(isinstance(n, ast.Subscript) and isinstance(n.slice, ast.Slice) for n in ast.walk(inner[0].iter)) if inner else False
-            if ok:
-                app = [c for c in ast.walk(inner[0]) if is_attr_call(c, "append")]
-                ok = bool(app) and all(len(conds(m, c)) == len(conds(m, inner[0])) for c in app)
-            res.add("C03.R4", repo.key(m, outer[0]) + " [all objects per subject]", ok, "each missing-import line names one subject and all objects grouped under it" if ok else "a missing-import line does not list exactly the objects grouped under its subject", where(m, outer[0]), kind="structural")
-    res.floor("C03.R4", 4, k)
-    # grouping function: keyed by subject, every pair appended
-    for gen_name, fn in (("RuleViolationMessageGenerator", "_get_violating_rule_subjects_and_objects"), ("LayerRuleViolationMessageGenerator", "_get_violating_rule_subject_and_objects_layers")):
-        m = repo.cls(MSG, gen_name).methods.get(fn)
-        if m is None:
-            raise AnalysisError(f"{gen_name}.{fn} not found")
-        loops = [l for l in own_nodes(m.node) if isinstance(l, ast.For) and dotted(l.iter) == m.param_names[1]]
-        ok = len(loops) == 1 and not any(isinstance(x, (ast.Break, ast.Continue, ast.If)) for x in ast.walk(loops[0]))
-        res.add("C03.R4", f"{m.relpath}::{m.qualname}::grouping is total", ok, "every (subject, object) pair is grouped" if ok else "some pairs are skipped while grouping objects by subject", where(m, m.node), kind="structural")
+            for f in fields:
+                n3 += 1
+                res.add("C03.R3", f"{head}::field {f} rendered", rendered[f], f"pairs of {f} reach the report" if rendered[f] else f"bucket {f} is never turned into message lines ({' and '.join(sorted(missing_in[f]))} rules): a whole class of violations is silently missing from the message", where(entry, entry.node), kind="flow")
+            n3 += 1
+            ok = not parts3
+            detail = "every pair of every bucket yields a line (no early exit, slice, filter or data-dependent condition on the way)"
+            if not ok:
+                detail = "not every pair yields a line: " + "; ".join(f"{why} [{w}] (buckets: {', '.join(sorted(b)) or '?'})" for (w, why), b in sorted(parts3.items())[:3]) + ": offending imports are missing from the report"
+            res.add("C03.R3", f"{head}::one line per pair", ok, detail, sorted(parts3)[0][0] if parts3 else where(entry, entry.node), kind="flow")
+            n3 += 1
+            ok = not incomplete_text
+            detail = "each line is formatted from rule subject, verb and rule object (de-duplication by the full text)"
+            if not ok:
+                detail = "; ".join(f"lines of {', '.join(sorted(b))} do not contain {k}" for k, b in sorted(incomplete_text.items())[:3]) + ": different violations collapse into one line"
+            res.add("C03.R3", f"{head}::full-text lines", ok, detail, where(entry, entry.node), kind="flow")
+            n4 += 1
+            ok = not parts4
+            detail = "each missing-import line lists all objects grouped under its subject"
+            if not ok:
+                detail = "a missing-import line does not list all objects grouped under its subject: " + "; ".join(f"{why} [{w}] (buckets: {', '.join(sorted(b)) or '?'})" for (w, why), b in sorted(parts4.items())[:3])
+            res.add("C03.R4", f"{head}::all objects per subject", ok, detail, sorted(parts4)[0][0] if parts4 else where(entry, entry.node), kind="flow")
+            n4 += 1
+            ok = not mixes
+            detail = "subject and objects of a line stem from the same (subject, object) pairs of the bucket"
+            if not ok:
+                detail = "a line combines a rule subject with objects of other pairs: " + "; ".join(f"{w} `{c.rsplit('::', 1)[-1]}` (buckets: {', '.join(sorted(b)) or '?'})" for (w, c), b in sorted(mixes.items())[:3]) + ": objects are listed for a subject that does import them"
+            res.add("C03.R4", f"{head}::objects belong to their subject", ok, detail, sorted(mixes)[0][0] if mixes else where(entry, entry.node), kind="flow")
+    res.floor("C03.R3", 20, n3)
+    res.floor("C03.R4", 4, n4)
+
+
+# --------------------------------------------------------------------------- R5
+
+
+def run_r5(repo: Repo, res: Result) -> None:
+    """The three graph queries of the evaluable: one independent search per key over the complete key set, stored under that key."""
+    T = types_of(repo)
+    proto = repo.cls(EVAL_ARCH, "EvaluableArchitecture")
+    queries = [m for m in proto.methods.values() if m.node.returns is not None and any(x[0] == "b" and x[1] == "dict" for x in members(T.ann(m.module, m.node.returns)))]
+    if len(queries) < 3:
+        raise AnalysisError(f"EvaluableArchitecture declares {len(queries)} dictionary-valued queries (expected the explicit and the two 'other' queries)")
+    search_funcs = [f for f in repo.module(SEARCHES).functions.values() if not f.name.startswith("_")]
+    impls: list[ClassInfo] = []
+    seen: set = set()
+    for c in repo.classes.values():
+        if c.fq == proto.fq or not repo.is_subclass(c, proto.fq):
+            continue
+        ms = [repo.lookup_method(c, q.name) for q in queries]
+        if any(m is None or m.cls is None or m.cls.fq == proto.fq or m.is_abstract for m in ms):
+            continue
+        sig = tuple(m.fq for m in ms)
+        if sig not in seen:
+            seen.add(sig)
+            impls.append(c)
+    if not impls:
+        raise AnalysisError("no implementation of the EvaluableArchitecture queries found")
+    n = 0
+    for cls in impls:
+        for q in queries:
+            impl = repo.lookup_method(cls, q.name)
+            calls: list[dict] = []
+
+            def make_intr(fn: FuncInfo, calls=calls):
+                def intr(it: Interp, args, kwargs, node, fr):
+                    allv = [*args, *kwargs.values()]
+                    key_scalars = [sc for a in allv for sh in a for sc in ([sh] if isinstance(sh, Sc) else [])]
+                    eids = frozenset().union(*[sc.eids for sc in key_scalars]) if key_scalars else frozenset()
+                    srcs = frozenset().union(*[sc.srcs for sc in key_scalars]) if key_scalars else frozenset()
+                    calls.append({"fn": fn, "args": allv, "node": node, "fr": fr, "live": frozenset(it.active)})
+                    el = Sc(srcs=srcs | {"search"}, eids=eids)
+                    return V(it.coll((id(node), fr.inv, "search"), it.site(fr, node), V(Tup((V(el), V(el)), "search result"))))
+
+                return intr
+
+            it = Interp(repo, {f.fq: make_intr(f) for f in search_funcs})
+            obj = it.instantiate(cls, lambda p, init: V(Opaque(p.arg)), "evaluable")
+            params = [p.arg for p in impl.params[1:]]
+            args = [V(it.coll(("input", p), "input", V(Sc(srcs=frozenset({p}))))) for p in params]
+            try:
+                out = it.call_method(obj, q.name, args, "query")
+            except (RuntimeError, RecursionError, KeyError, AttributeError, TypeError, IndexError, ValueError) as e:
+                raise AnalysisError(f"{impl.fq}: abstract interpretation failed ({type(e).__name__}: {e})") from e
+            head = f"{impl.relpath}::{cls.name}.{q.name}"
+            dicts = [sh for sh in out if isinstance(sh, Ref) and sh.kind == "dict"]
+            w = it.has_top(out)
+            if w or not dicts or not calls or len(dicts) != len([sh for sh in out if not (isinstance(sh, Const) and sh.value is None)]):
+                n += 3
+                res.undecide("C03.R5", f"{head}::result", f"the abstract evaluation of the query lost track ({w or '; '.join(it.tops[:2]) or ('no search call reached' if not calls else 'result is not a dictionary')})", where(impl, impl.node))
+                continue
+            pset = set(params)
+            clean = not it.tops
+            # (a) what every search receives
+            extra: list[str] = []
+            partial: list[str] = []
+            used: set = set()
+            for c in calls:
+                for ai, a in enumerate(c["args"]):
+                    cn = c["node"]
+                    texts = [norm(x, 50) for x in cn.args] + [norm(k.value, 50) for k in cn.keywords] if isinstance(cn, ast.Call) else []
+                    if not a:
+                        extra.append(f"`{texts[ai] if ai < len(texts) else '?'}` (neither the graph, nor the current key, nor one of the complete module sets) in `{norm(cn, 80)}`")
+                        continue
+                    for sh in a:
+                        if isinstance(sh, Opaque) or (isinstance(sh, Const) and sh.value is None):
+                            continue
+                        if isinstance(sh, Sc):
+                            if sh.srcs and sh.srcs <= pset and sh.eids:
+                                used |= sh.srcs
+                                partial += [f"{mk[2]} [{mk[1]}]" for mk in sh.marks if mk[0] == "part"]
+                            else:
+                                extra.append(f"`{norm(c['node'], 80)}`: a scalar argument that is not an element of {sorted(pset)}")
+                        elif isinstance(sh, Ref) and sh.kind == "coll":
+                            els = it.elems(V(sh))
+                            scs = it.scalars(els)
+                            if scs and all(isinstance(x, Sc) for x in els) and all(sc.srcs and sc.srcs <= pset and not (sc.eids & c["live"]) for sc in scs):
+                                for sc in scs:
+                                    used |= sc.srcs
+                                    partial += [f"{mk[2]} [{mk[1]}]" for mk in sc.marks if mk[0] == "part"]
+                            else:
+                                extra.append(f"`{norm(c['node'], 80)}`: a collection that is not one of the complete module sets {sorted(pset)}")
+                        else:
+                            extra.append(f"`{norm(c['node'], 80)}`: an argument of kind {type(sh).__name__}{' (' + sh.why + ')' if isinstance(sh, Top) else ''}")
+            if not clean and (extra or sorted(pset - used)):
+                n += 3
+                res.undecide("C03.R5", f"{head}::searches", f"the abstract evaluation met constructs it does not model ({'; '.join(it.tops[:2])})", where(impl, impl.node))
+                continue
+            n += 1
+            ok = not extra
+            res.add("C03.R5", f"{head}::independent searches", ok, "each search receives only the graph, its own key and the whole opposite set" if ok else f"a search also receives {extra[0]}: state is shared between the searches of one batch, so a pair found for one key can be missing under another", where(impl, calls[0]["node"]) if calls else where(impl, impl.node), kind="flow")
+            # (b) keys: complete, derived from the parameters
+            key_marks: list[str] = list(partial)
+            bad_keys: list[str] = []
+            bad_vals: list[str] = []
+            unsure: list[str] = []
+            for d in dicts:
+                for k, v in it.cell(d).entries:
+                    ks = it.scalars(k)
+                    if not ks or not all(sc.srcs and sc.srcs - {x for x in sc.srcs if str(x).startswith("fld:")} <= pset for sc in ks):
+                        bad_keys.append("a key that does not derive from the given modules")
+                    key_marks += [f"{mk[2]} [{mk[1]}]" for sc in ks for mk in sc.marks if mk[0] == "part"]
+                    keids = frozenset().union(*[sc.eids for sc in ks]) if ks else frozenset()
+                    ksrcs = frozenset().union(*[sc.srcs & pset for sc in ks]) if ks else frozenset()
+                    for sh in v:
+                        if not (isinstance(sh, Ref) and sh.kind == "coll"):
+                            bad_vals.append("the value stored for a key is not the list of imports found by a search")
+                            continue
+                        vs = it.scalars(it.elems(V(sh)))
+                        if not vs or not all("search" in sc.srcs for sc in vs):
+                            bad_vals.append("the value stored for a key is not (only) the result of a graph search")
+                            continue
+                        veids = frozenset().union(*[sc.eids for sc in vs])
+                        vsrcs = frozenset().union(*[sc.srcs & pset for sc in vs])
+                        key_loops = {x for x in keids if x in it.loop_eids}
+                        if vsrcs != ksrcs:
+                            bad_vals.append(f"the key derives from {sorted(ksrcs)}, the search stored under it was run for {sorted(vsrcs)}")
+                        elif key_loops and not (it.cell(sh).born & key_loops):
+                            bad_vals.append("the list stored under a key is shared between the keys (created outside the loop over the keys): it also holds the imports found for other keys")
+                        elif veids != keids or not keids:
+                            unsure.append("the search result and the key it is stored under could not be matched (they stem from different iterations)")
+                        key_marks += [f"{mk[2]} [{mk[1]}]" for sc in vs for mk in sc.marks if mk[0] == "part"]
+                        key_marks += [f"{mk[2]} [{mk[1]}]" for mk in it.cell(sh).part]
+            n += 1
+            missing = sorted(pset - used)
+            ok = not key_marks and not bad_keys and not missing
+            detail = f"one search per element of {params} (duplicates removed only)"
+            if not ok:
+                detail = (f"parameter(s) {missing} never reach a search" if missing else bad_keys[0] if bad_keys else f"not every given module gets a search / an entry of its own: {sorted(set(key_marks))[0]}") + ": a subject/object of the batch gets no judgement of its own"
+            res.add("C03.R5", f"{head}::all keys", ok, detail, where(impl, impl.node), kind="flow")
+            n += 1
+            if unsure and not bad_vals:
+                res.undecide("C03.R5", f"{head}::result per key", unsure[0], where(impl, impl.node))
+                continue
+            ok = not bad_vals
+            res.add("C03.R5", f"{head}::result per key", ok, "the result of each search is stored under its own key" if ok else bad_vals[0], where(impl, impl.node), kind="flow")
+    res.floor("C03.R5", 9, n)
+
+
+# --------------------------------------------------------------------------- R6
+
+
+def _derives(it: Interp, v, tag: str, depth: int = 0) -> bool:
+    if depth > 6:
+        return False
+    for sh in v:
+        if isinstance(sh, Sc) and tag in sh.srcs:
+            return True
+        if isinstance(sh, Tup) and any(_derives(it, x, tag, depth + 1) for x in sh.items):
+            return True
+        if isinstance(sh, Ref):
+            c = it.cell(sh)
+            if sh.kind == "coll" and _derives(it, frozenset(c.elem), tag, depth + 1):
+                return True
+            if sh.kind == "dict" and any(_derives(it, k, tag, depth + 1) or _derives(it, x, tag, depth + 1) for k, x in list(c.entries)):
+                return True
+            if sh.kind == "obj" and any(_derives(it, x, tag, depth + 1) for x in list(c.fields.values())):
+                return True
+    return False
+
+
+def run_r6(repo: Repo, res: Result) -> None:
+    """A matcher that is applied a second time (same Rule object, other architecture) must not read anything the first application
+    derived from *its* evaluable: the second application is interpreted on the very same abstract matcher object."""
+    T = types_of(repo)
+    base = repo.cls(MATCHER, "RuleMatcher")
+    modreq = repo.cls(MODREQ, "ModuleRequirement")
+    proto = repo.cls(EVAL_ARCH, "EvaluableArchitecture")
+    classes = _concrete_classes(repo, base)
+    if not classes:
+        raise AnalysisError("no concrete RuleMatcher found")
+    n = 0
+    for cls in classes:
+        entries = []
+        for k in repo.mro(cls):
+            for m in k.methods.values():
+                if _public(repo, m) and not m.is_abstract and repo.lookup_method(cls, m.name) is m and any(_mentions_class(_ann(T, m, p), proto.fq) for p in m.params[1:]):
+                    entries.append(m)
+        if not entries:
+            raise AnalysisError(f"{cls.fq}: no public method taking an EvaluableArchitecture found")
+        for entry in entries:
+            it = Interp(repo)
+
+            def mr_args():
+                counter = {"n": 0}
+
+                def mr_arg(p: ast.arg, init: FuncInfo):
+                    if _ann(T, init, p) == BOOL:
+                        return V(Const(True))
+                    counter["n"] += 1
+                    return V(it.coll(("input", "modreq", p.arg), "rule configuration", V(Sc(roles=ROLE_S if counter["n"] == 1 else ROLE_O))))
+
+                return mr_arg
+
+            def m_arg(p: ast.arg, init: FuncInfo):
+                if _mentions_class(_ann(T, init, p), modreq.fq):
+                    return it.instantiate(modreq, mr_args(), "modreq")
+                return V(Opaque(p.arg))
+
+            matcher = it.instantiate(cls, m_arg, "matcher")
+            it.writes = set()
+            head = f"{entry.relpath}::{cls.name}.{entry.name}"
+            try:
+                it.call_method(matcher, entry.name, [V(Sc(srcs=frozenset({"evaluable#1"}))) if _mentions_class(_ann(T, entry, p), proto.fq) else V(Opaque(p.arg)) for p in entry.params[1:]], "call-1")
+                consulted = [nm for nm, srcs in it.scalar_calls if "evaluable#1" in srcs]
+                stale = {(k, f) for (k, f) in it.writes if _derives(it, it.cells[k].fields.get(f, E), "evaluable#1")}
+                it.stale = set(stale)
+                it.stale_reads = []
+                it.call_method(matcher, entry.name, [V(Sc(srcs=frozenset({"evaluable#2"}))) if _mentions_class(_ann(T, entry, p), proto.fq) else V(Opaque(p.arg)) for p in entry.params[1:]], "call-2")
+            except (RuntimeError, RecursionError, KeyError, AttributeError, TypeError, IndexError, ValueError) as e:
+                raise AnalysisError(f"{entry.fq}: abstract interpretation failed ({type(e).__name__}: {e})") from e
+            if not consulted:
+                n += 1
+                res.undecide("C03.R6", f"{head}::second application", f"the abstract evaluation never saw the evaluable being queried ({'; '.join(it.tops[:2]) or 'no call on it'})", where(entry, entry.node))
+                continue
+            reads = it.stale_reads
+            own = {sh.key for sh in matcher if isinstance(sh, Ref)}
+            names = sorted({f for k, f in stale if k in own})
+            n += 1
+            ok = not reads
+            detail = f"everything derived from the evaluable ({', '.join(names) or 'nothing is kept on the matcher'}) is recomputed before it is read when the matcher is applied again"
+            if not ok:
+                fields = sorted({r[2] for r in reads})
+                detail = f"applied a second time, the matcher reads `{'`, `'.join(fields)}` as left behind by the first application (first read: {reads[0][1].split('::', 1)[1]}): module lists resolved against another architecture are re-used, so imports of modules that exist only in the new architecture are missing from the report"
+            res.add("C03.R6", f"{head}::second application", ok, detail, reads[0][0] if reads else where(entry, entry.node), nontrivial=bool(names), kind="flow")
+    res.floor("C03.R6", 2, n)
 
 
 def run(repo: Repo) -> Result:
     res = Result("C03")
     res.explanation = (
-        "Decides four necessary conditions of exact reports: (R1) the 'something else' searches never expand a module outside the subject's "
-        "subtree and the excluded objects, so no import unrelated to the subject can be recorded; (R2) every pair reaching a violation bucket "
-        "passes the re-orientation into user subject/object order exactly once and that function exchanges exactly for be-imported-by rules; "
-        "(R3) every bucket is rendered by both message generators, each pair yields a line, lines are de-duplicated by full text and sorted; "
-        "(R4) missing-import lines group by subject and list all grouped objects."
+        "Decides necessary conditions of exact reports: (R1) the 'something else' searches never expand a module outside the subject's "
+        "subtree and the excluded objects, so no import unrelated to the subject can be recorded; (R2) abstract interpretation of every concrete "
+        "violation detector, for import and be-imported-by rules: every pair stored in a RuleViolations bucket is (rule subject, rule object); "
+        "(R3) the module-rule detector drops no pair of the query results; abstract interpretation of every concrete message generator: pairs of every "
+        "bucket reach the report, no early exit / slice / filter / data-dependent condition drops a pair, a line is formatted from subject, verb and object; "
+        "(R4) the objects listed on a missing-import line are all objects grouped under its subject and only objects paired with it; (R5) each of the "
+        "three graph queries runs one search per element of the complete key set, hands it only the graph, that key and the whole opposite set, and stores "
+        "the result under that key; (R6) a matcher applied a second time reads nothing the first application derived from its evaluable."
     )
     res.not_decided = "equality of the rendered set with a reference violating set on every graph (needs the values the searches compute)."
-    res.trusted_base = ["engine search model (rules/search.py), flow analysis and guard implication"]
-    inl = Inliner(repo)
+    res.trusted_base = ["engine search model (rules/search.py)", "abstract interpreter rules/c03_absint.py (joins over-approximate; unknown constructs give 'undecided', never a pass)", "guard implication"]
     run_r1(repo, res)
-    run_r2(repo, res, inl)
+    run_r2(repo, res)
     run_r3_r4(repo, res)
-    # R5: the result stored for one (subject, object) key depends on that key only - otherwise a 'does not import' line can be
-    # produced for a subject whose import was credited to another key of the same batch
-    from . import c11
-
-    tmp = Result("C11")
-    c11.run_r4(repo, tmp)
-    for o in tmp.obligations:
-        res.add("C03.R5", o.construct, o.ok, o.detail, o.where, o.nontrivial, o.kind)
-    res.floor("C03.R5", 12, len(tmp.obligations))
+    run_r5(repo, res)
+    run_r6(repo, res)
     return res
